@@ -40,7 +40,8 @@ def block_0(
             (
                 0,
                 address_type.to_knx() | frame_format,
-                (tpci_int << 2) + _APCI_SEC_HIGH,
+                # `tpci_int` is the TPCI octet as transmitted - its 6 bits are in place
+                tpci_int | _APCI_SEC_HIGH,
                 _APCI_SEC_LOW,
                 0,
                 payload_length,
